@@ -240,6 +240,11 @@ def gen_case(rng):
         s["look_deg"] = rng.choice([45.0, 59.0, 30.0])
         s["bc"] = round(rng.uniform(0.05, 0.15), 3)
         d_yd = rng.choice([600.0, 900.0])
+    if rng.random() < 0.05:     # aim point below the calculator's altitude floor (-1410.7 ft): the sight line reaches it, no trajectory can
+        s["look_deg"] = rng.choice([-59.0, -45.0, -30.0])
+        s["atmo"] = {"kind": "icao", "alt_ft": 0.0}
+        s["mv_fps"] = max(s["mv_fps"], 2000.0)
+        d_yd = round(1500.0 / abs(math.sin(math.radians(s["look_deg"]))) / 3.0 * rng.uniform(1.02, 1.3), 1)
     case = {"shot": s, "distance_ft": d_yd * 3.0, "api": rng.choice(["set_weapon_zero", "barrel_elevation"])}
     if rng.random() < 0.15:
         case["config"] = rng.choice([{"max_calc_step_size_feet": 1.0}, {"cZeroFindingAccuracy": 1e-4}, {"max_calc_step_size_feet": 0.25}])
